@@ -632,8 +632,15 @@ class _GroupByState(Generic[R, T_co]):
 
     async def step(self) -> None:
         # can raise StopAsyncIteration
-        value = await anext(self._iterator)
-        key = await self._key_func(value)
+        try:
+            value = await anext(self._iterator)
+            key = await self._key_func(value)
+        except StopAsyncIteration:
+            raise
+        except BaseException:
+            # failed for good: release the underlying iterator as on ``aclose``
+            await self.aclose()
+            raise
         self._current_value, self.current_key = value, key
 
     async def maybe_step(self) -> None:
